@@ -107,7 +107,9 @@ class Index:
 
     def method(self, method, file_hint=None, self_type=None):
         """finds the crate function `method` defined in a file whose path contains file_hint; self_type filters by first argument type"""
-        c = [f for f in self.by_method.get(method, []) if (file_hint is None or (f.file and file_hint in f.file) or (f.file is None and file_hint in f.name))]
+        mod = file_hint.split("/")[-1][:-3] if file_hint and file_hint.endswith(".rs") else file_hint
+        c = [f for f in self.by_method.get(method, []) if (file_hint is None or (f.file and file_hint in f.file) or
+                                                            (f.file is None and (file_hint in f.name or (mod and re.search(r"(^|::)%s::" % re.escape(mod), f.name)))))]
         if len(c) > 1 and self_type:
             c2 = [f for f in c if f.args and self_type in f.types.get(f.args[0], "")]
             if c2:
